@@ -7,7 +7,7 @@ TB = ("trusted: govc's SSA->SMT semantics (DESIGN.md 2.3, 8), go/ssa+go/types, t
 L = "  What composes these per-function facts into the whole-program reading of the property is a paper lemma of DESIGN.md section 5, not machine-checked."
 claimed = {
  'C01': dict(text="Unbounded deductive proof over the real code of lexer, parser, evaluator, value model and native methods (about 100 functions under contract): (a) safety -- no nil dereference, index/slice out of range, failed type assertion, integer division by zero, write to a nil map, nor any reachable explicit panic; (b) error funnel -- lexer/parser return only syntax errors, the evaluator only runtime errors or control-flow sentinels, EvalProgram only syntax/runtime/JSON errors; next and exit are proved consumed by the drivers (also when raised inside a rule pattern or a root selector). Type invariants (well-formed values, tokens, AST nodes, frames) are assumed on load and proved at every store.",
-             note=TB + "; break/continue/return escaping a rule body is excluded by the parser's static scoping facts (proved: flags restored, break needs loop context, return needs function context) composed by lemma L1, not by a machine-checked whole-AST invariant; Go stack exhaustion by deep recursion and out-of-memory are outside the logic; cli.Run/printError and GetRootJson are not under contract; wf(Value) of a zero Cell handed to copyValue is the documented gap of DESIGN.md 4/C01." + L,
+             note=TB + "; break/continue/return escaping a rule body is excluded by the parser's static scoping facts (proved: flags restored, break needs loop context, return needs function context) composed by lemma L1, not by a machine-checked whole-AST invariant; Go stack exhaustion by deep recursion and out-of-memory are outside the logic; wf(Value) of a zero Cell handed to copyValue is the documented gap of DESIGN.md 4/C01." + L,
              design="4 C01"),
  'C02': dict(text="Unbounded deductive proof of the scheduling steps on the real drivers: readRules partitions the rules by kind (each list holds only rules of its kind); evalRules runs a rule's body iff its pattern is absent or was just evaluated truthy, stops the list on next (also from a pattern) and never returns next; evalPatternRules binds $ to element i and $index to i for each element of an array root (in slice order) and to the root itself otherwise; EvalProgram gives every BEGIN/END rule a fresh null $, runs the pattern rules on the selected root cell, consumes next/exit at every level.",
              note=TB + "; order preservation inside each rule list and the nesting files -> values -> selectors -> BEGINFILE/pattern/ENDFILE are read off the loop structure (range loops in source order), not stated as a trace postcondition; $file binding is not under contract." + L,
@@ -45,6 +45,9 @@ claimed = {
  'C13': dict(text="Unbounded deductive proof of the lexical clauses on the real lexer (whitespace/comments never cross a newline, newline is a token, numerals never absorb an operator, whole-word keywords, strings are the bytes between identical quotes, maximal munch) and of the parser's newline handling (advance drops newline tokens and records them; a bare return and a closing brace end their statement).",
              note=TB + "; unicode.IsLetter/IsDigit on non-ASCII runes are uninterpreted; the relational clauses (two layouts of one token sequence behave identically) are 2-safety properties and are NOT decided (DESIGN.md 7).",
              design="4 C13"),
+ 'C14': dict(text="Unbounded deductive proof of the wrapper facts expressible on one run of cli.Run (external flag/os/isatty calls unconstrained): it returns 0 or 1; an interpreter error gives 1; the selectors are handed to EvalProgram in the order given, without fuzzing, with one input per file path; JSON is serialised only for a single input; -o FILE writes exactly the string -o - prints into a truncating os.Create; and in EvalProgram each decoded value is processed through exactly one root per selector (or itself).",
+             note=TB + "; the equivalence clauses (-f vs inline text, stdin vs file, -r E vs BEGINFILE { $ = E }, binary vs library) relate two different runs or two different programs and are NOT decidable by a contract on one function (DESIGN.md 7); flag, os, isatty, pprof are unconstrained externals; -dbg-ast/-dbg-lex/-version paths are trusted (outside the property).",
+             design="4 C14"),
  'C15': dict(text="Unbounded deductive proof of the array methods against list semantics on the real closures: length, push (appends exactly one fresh cell, keeps the others), pop/popfirst (remove last/first, null when empty), contains (true iff some element == the argument, scanning in order), sort (fresh array of fresh copies via the stable library sort, receiver untouched), index resolution of GetMember/SetMember, and that the receiver a method runs on is the one bound when the method was looked up, whatever the arguments evaluate.",
              note=TB + "; the ordering produced by slices.SortStableFunc is an assumed library contract; sequences of operations compose by lemma L15." + L,
              design="4 C15"),
@@ -65,7 +68,6 @@ claimed = {
              design="4 C20"),
 }
 na = {
- 'C14': "cli.Run is not under contract (flag/os/isatty models not built); its equivalence clauses (-f vs inline, stdin vs file, -r vs BEGINFILE) are relations between two runs and not expressible as a contract (DESIGN.md 7)",
 }
 hook_commits = subprocess.run("git -C /repo log --format=%H --grep='^verif:'", shell=True, capture_output=True, text=True).stdout.split()
 m = {
